@@ -72,6 +72,41 @@ CHECKS = {
         "Trusted: numpy FFT for the spectral comparison; one fixed well-conditioned anisotropic column.",
         "DESIGN.md section 4, C11",
     ),
+    "C08": (
+        "exploration",
+        "reference-model monitor: wind decomposition against math.sin/cos; end to end, bearing of the footprint's peak region (f >= 0.25 max inside the largest tower-centred disc) observed through parse_config_dict -> run_bldfm_single with a lat/lon tower, against the configured wind direction (5 degrees)",
+        "48-direction lattice (x3 quick, x12 thorough) plus random directions, speeds, stabilities, four closures, ustar/z0 forcing, square and oblong grids, default and explicit halo, both precisions; preconditions (dx, dy <= z_m, no truncation, G<=18, peak region >= 12 cells inside the disc) are counted when they skip a draw. Observed worst bearing error 1.7 degrees.",
+        "Trusted: the 5 degree threshold is a calibrated constant (margin 3x); the plain centroid is deliberately not used (periodic wrap-around bias).",
+        "DESIGN.md section 4, C08",
+    ),
+    "C12": (
+        "exploration",
+        "history monitor: random call histories over {solve of 11 requests, NUM_THREADS in 1/2/4/8, FFT-manager reset / re-creation, poisoned / foreign / missing wisdom file, allocation noise}; every solve compared bitwise with earlier results of the same (request, thread setting), and against a table produced by solving each request alone in a fresh subprocess",
+        "32 quick / 320 thorough histories of 60 operations on concurrently running workers; distinct process-state tuples and (state -> request) transitions are counted and reported; single vs double compared at the property's 1e-5.",
+        "Trusted: the fresh-process table is one execution per request per run; schedules are those that occur on this 16-core sandbox under load.",
+        "DESIGN.md section 4, C12",
+    ),
+    "C13": (
+        "exploration",
+        "reference-model monitor: hand re-assembly of the documented low-level pipeline next to every run_bldfm_single call (bitwise), recording spies on the four callables bldfm.interface references, YAML dump/load vs dict parse",
+        "Seeded random configurations (96 quick / 1280 thorough, ~4.5 (tower, step) runs each) over closures, precisions, footprint/dispersion, analytic, default/explicit halo and modes, output_levels/full_output/default, z0/ustar/both, scalar/list forcing, 1-3 towers, every time index, ideal and user-supplied flux.",
+        "Trusted: the pipeline order as documented in the interface's docstring (z0 precedence, level rule).",
+        "DESIGN.md section 4, C13",
+    ),
+    "C14": (
+        "exploration",
+        "history/schedule monitor: serial table of single runs as model; module-level run_bldfm_single wrapped before the pool forks (per-task delays random / adversarial, worker log of pid, task, start, end); slow-cache-writer injection; offline check of executed tasks and completion orders",
+        "Shapes 1x1..4x2 x three strategies x workers 1/2/3/5 x delay schemes x parent threads 1/4 x cache off/on (explicit and default halo) x distinct / twin / equal-height towers x repeated met: 40 quick / 400 thorough configurations, ~5 parallel calls each; a strategy for which no out-of-order completion was observed makes the run inconclusive.",
+        "Trusted: fork start method; schedules are those produced by the injected delays on this machine (counts reported).",
+        "DESIGN.md section 4, C14",
+    ),
+    "C15": (
+        "fault_enumeration",
+        "history monitor + fault enumeration: recording GreensFunctionCache subclass and counting sweep wrapper against the model 'uncached solve; identical request => hit; hit => no sweep'; every truncation length of stored entries, byte corruption, zero-length/garbage files, SIGKILL at every write/rename syscall of a storing process (strace injection)",
+        "All ordered pairs A->B->B->A over a 25-request alphabet that varies every solver argument one at a time (625 histories), random sequences also split over two processes, truncation at every byte offset of four stored entries (thorough; quick: every 5th offset plus both ends, ~6200 points), 44 corruptions per case, and one kill per syscall of the put (12 + the first syscall after it).",
+        "Trusted: strace's per-tracee injection counter; a fault that stores a valid entry of another request under this key is not producible by an interrupted run and is not injected.",
+        "DESIGN.md section 4, C15",
+    ),
     "C09": (
         "exploration",
         "reference-model monitor: harness's own Businger-Dyer functions, log-law, similarity diffusivities and exp-mapped grid evaluated next to every observed vertical_profiles / psi / phi call; quadrature oracle for psi",
